@@ -14,6 +14,9 @@ for d in sorted(glob.glob(os.path.join(here, 'seeded', '*'))):
     if meta.get('neutralised_by'):
         print('%-55s no longer a defect: %s' % (sid, meta['neutralised_by'][:60]), flush=True)
         continue
+    if not meta['caught_by_quick_checks']:
+        print('%-55s recorded as not caught (see its meta.json)' % sid, flush=True)
+        continue
     checks = meta['caught_by_quick_checks'] if allc else meta['caught_by_quick_checks'][:1]
     p = subprocess.run([os.path.join(here, 'tools', 'try_mutant.sh'), os.path.join(d, 'patch.diff'), '-'] + checks,
                        stdout=subprocess.PIPE, stderr=subprocess.STDOUT, timeout=3600)
